@@ -111,6 +111,7 @@ pub fn run_searches(property: &str, tier: &str, level: &str, searches: Vec<Searc
             "per_depth_new_states_transitions": r.per_depth.iter().map(|(d, n, t)| json!([d, n, t])).collect::<Vec<_>>(),
             "judged_strictly": r.judged_strictly,
             "not_judged_hazard": r.tainted,
+            "not_judged_by_hazard": r.tainted_by,
             "known_finding_executions": r.known.iter().map(|(k, v)| (k.clone(), v.0)).collect::<BTreeMap<_, _>>(),
             "violations": r.violations.len(),
             "cap": r.capped,
